@@ -12,6 +12,8 @@ import AutomataVerif.Proofs.ExpandValid
 import AutomataVerif.Proofs.Rename
 
 namespace AV
+namespace C04
+open DFA
 
 set_option linter.unusedSectionVars false
 
@@ -122,10 +124,9 @@ theorem filter_keys_eq_nil {r : List (κ × β)} {K : List κ} (h : ∀ a ∈ ak
   have : e.1 ∈ K := h e.1 (List.mem_map.mpr ⟨e, he, rfl⟩)
   simp [this]
 
-namespace DFA
 
 /-- Every alphabet symbol is a key of every row (what `allow_partial=False` demands). -/
-def IsComplete (d : DFA σ α) : Prop := ∀ kv ∈ d.trans, ∀ a ∈ d.syms, a ∈ akeys kv.2
+def _root_.AV.DFA.IsComplete (d : DFA σ α) : Prop := ∀ kv ∈ d.trans, ∀ a ∈ d.syms, a ∈ akeys kv.2
 
 theorem isComplete_of_flag {d : DFA σ α} (wf : d.WF) (h : d.allowPartial = false) : d.IsComplete :=
   wf.complete h
@@ -185,13 +186,13 @@ section toComplete
 variable (d : DFA σ α) (trap : σ)
 
 /-- The row `{**default_to_trap, **lookup}`. -/
-def fillRow (row : List (α × σ)) : List (α × σ) :=
+def _root_.AV.DFA.fillRow (row : List (α × σ)) : List (α × σ) :=
   (d.syms.map fun a => (a, (alookup a row).getD trap)) ++ row.filter fun e => decide (e.1 ∉ d.syms)
 
 /-- The dict comprehension of `_to_complete` before the trap row is stored. -/
-def filledTrans : List (σ × List (α × σ)) := d.trans.map fun kv => (kv.1, d.fillRow trap kv.2)
+def _root_.AV.DFA.filledTrans : List (σ × List (α × σ)) := d.trans.map fun kv => (kv.1, d.fillRow trap kv.2)
 
-def trapRow : List (α × σ) := d.syms.map fun a => (a, trap)
+def _root_.AV.DFA.trapRow : List (α × σ) := d.syms.map fun a => (a, trap)
 
 theorem toCompleteCore_trans :
     (d.toCompleteCore trap).trans = ainsert trap (d.trapRow trap) (d.filledTrans trap) := rfl
@@ -374,10 +375,10 @@ end complement
 /-- `complement(minify=False)` as the code composes it (mirrors `Driver/DfaOps.lean
 dfaComplement`): complete first iff `allow_partial`, then flip the final states.  `trap` is
 the id `_get_trap_state_id()` finds (some name outside `states`). -/
-def complementFull (d : DFA σ α) (trap : σ) : Res (DFA σ α) :=
+def _root_.AV.DFA.complementFull (d : DFA σ α) (trap : σ) : Res (DFA σ α) :=
   match (if d.allowPartial then d.toComplete trap false else .ok d) with
   | .ok C => .ok C.complementPlain
   | .error e => .error e
 
-end DFA
+end C04
 end AV
